@@ -37,7 +37,7 @@ vars == <<cfg, hist, st, tree, userEnv>>
 
 -----------------------------------------------------------------------------
 (* Named deviations of this interpreter from bash that show up in the library. *)
-Dev_ErrTrapOnExit  == TRUE   \* `exit n` with n # 0 runs the ERR trap (bash: it does not)
+Dev_ErrTrapOnExit  == FALSE  \* `exit n` with n # 0 does not run the ERR trap (the interpreter did until 8965d83; bash does not)
 Dev_DirsIgnoresCd  == TRUE   \* `cd` does not replace the top of the directory stack shown by `dirs`
 Dev_UnaliasMissing == "0"    \* `unalias` of a missing alias has status 0 (bash: 1)
 Dev_UnsetReadonly  == "0"    \* `unset` of a readonly variable prints the error but has status 0 (bash: 1)
